@@ -3347,9 +3347,7 @@ impl Zeroconf {
                     .my_services
                     .iter()
                     .find(|(k, _v)| {
-                        dns_registry
-                            .resolve_name(k.as_str())
-                            .eq_ignore_ascii_case(&query_name)
+                        dns_registry.resolve_name(k.as_str()).to_lowercase() == query_name
                     })
                     .map(|(_, v)| v);
 
